@@ -221,19 +221,53 @@ Proof.
 Qed.
 Print Assumptions av1c_strict.
 
-Theorem av1c_fmp4_refuted : forall c, strict_av1c (payload_of (build_av1c_fmp4 c)) = None.
+(* the av1C payload decodes for ALL field values: the builder masks every field to its width *)
+Lemma av1c_strict_some : forall c, exists a,
+  strict_av1c (payload_of (build_av1c_box c)) = Some a /\ a1_obus a = av1_sequence_header c.
 Proof.
-  intros c. unfold build_av1c_fmp4. pob. unfold strict_av1c.
-  match goal with |- (if ?a && ?b && _ && _ then _ else _) = _ =>
-    replace b with false by reflexivity; destruct a end; reflexivity.
+  intros c. unfold build_av1c_box. cbv zeta. pob. rewrite strict_av1c_shape.
+  eexists. split; reflexivity.
 Qed.
-Print Assumptions av1c_fmp4_refuted.
 
-Theorem hvcc_fmp4_refuted : forall c, strict_hvcc (payload_of (build_hvcc_fmp4 c)) = None.
+(** the fragmented muxer writes av1C with the progressive builder, from the configuration parsed
+    out of the supplied sequence header or, when it does not parse, from default fields
+    (formerly refuted: finding KF-C19-6 / KF-C07-1, repaired in muxide by commit 48ef1ef) *)
+Theorem fragmented_av1c_strict : forall c a,
+  extract_av1_config (match fc_av1 c with Some s => s | None => [] end) = Some a ->
+  av1_seq_profile a < 8 -> av1_seq_level_idx a < 32 -> av1_seq_tier a < 2 -> av1_chroma_sample_position a < 4 ->
+  strict_av1c (payload_of (build_av1c_fmp4 c)) =
+    Some {| a1_profile := av1_seq_profile a; a1_level := av1_seq_level_idx a; a1_tier := av1_seq_tier a;
+            a1_high_bitdepth := av1_high_bitdepth a; a1_twelve_bit := av1_twelve_bit a; a1_mono := av1_monochrome a;
+            a1_sx := av1_subsampling_x a; a1_sy := av1_subsampling_y a; a1_csp := av1_chroma_sample_position a;
+            a1_obus := av1_sequence_header a |}.
 Proof.
-  intros c. unfold build_hvcc_fmp4. pob. reflexivity.
+  intros c a He Hp Hl Ht Hc. unfold build_av1c_fmp4. cbv zeta.
+  rewrite He. exact (av1c_strict a Hp Hl Ht Hc).
 Qed.
-Print Assumptions hvcc_fmp4_refuted.
+Print Assumptions fragmented_av1c_strict.
+
+Theorem fragmented_av1c_strict_fallback : forall c,
+  extract_av1_config (match fc_av1 c with Some s => s | None => [] end) = None ->
+  strict_av1c (payload_of (build_av1c_fmp4 c)) =
+    Some {| a1_profile := 0; a1_level := 0; a1_tier := 0;
+            a1_high_bitdepth := false; a1_twelve_bit := false; a1_mono := false;
+            a1_sx := true; a1_sy := true; a1_csp := 0;
+            a1_obus := match fc_av1 c with Some s => s | None => [] end |}.
+Proof.
+  intros c He. unfold build_av1c_fmp4. cbv zeta.
+  rewrite He.
+  apply (av1c_strict (av1_config_default (match fc_av1 c with Some s => s | None => [] end))); reflexivity.
+Qed.
+Print Assumptions fragmented_av1c_strict_fallback.
+
+(* whatever the supplied sequence header is, the record is a well-formed av1C *)
+Theorem fragmented_av1c_wellformed : forall c, exists a, strict_av1c (payload_of (build_av1c_fmp4 c)) = Some a.
+Proof.
+  intros c. unfold build_av1c_fmp4. cbv zeta.
+  match goal with |- context [build_av1c_box ?x] => destruct (av1c_strict_some x) as (a & Ha & _) end.
+  exists a. exact Ha.
+Qed.
+Print Assumptions fragmented_av1c_wellformed.
 
 (** * esds / AudioSpecificConfig *)
 Theorem esds_strict : forall a,
@@ -429,6 +463,23 @@ Proof.
   reflexivity.
 Qed.
 Print Assumptions hvcc_strict.
+
+(** the fragmented muxer writes hvcC with the progressive builder
+    (formerly refuted: finding KF-C19-6, repaired in muxide by commit 48ef1ef) *)
+Theorem fragmented_hvcc_strict : forall c,
+  let vps := match fc_vps c with Some v => v | None => [] end in
+  len vps < 65536 -> len (fc_sps c) < 65536 -> len (fc_pps c) < 65536 ->
+  strict_hvcc (payload_of (build_hvcc_fmp4 c)) = Some [(32, vps); (33, fc_sps c); (34, fc_pps c)].
+Proof.
+  intros c vps Hv Hs Hp. unfold build_hvcc_fmp4. fold vps.
+  unfold build_hvcc_box. cbv zeta. pob. cbn [hevc_vps hevc_sps hevc_pps].
+  rewrite strict_hvcc_hdr.
+  rewrite hvcc_arrays_step by (reflexivity || exact Hv).
+  rewrite hvcc_arrays_step by (reflexivity || exact Hs).
+  rewrite hvcc_arrays_last by (reflexivity || exact Hp).
+  reflexivity.
+Qed.
+Print Assumptions fragmented_hvcc_strict.
 
 (** * extracted parameter sets are the first units of the declarative split *)
 Lemma find_filter {A} (p q : A -> bool) l : find p (filter q l) = find (fun x => q x && p x) l.
